@@ -2601,7 +2601,7 @@ func lemmaForwardSession(raw *rawEnvelope) (e *Session, e3 *Session, accepted bo
 //@   props C01 C04 C09 C12 C16
 //@   requires tcpInv(t)
 //@   panics only-if ctx == nil
-//@   modifies t.eof, t.limitedReader.N, t.limitedReader.consumed, t.ctxConn.readCtx, t.ctxConn.readCancel, t.decoder.ended
+//@   modifies t.eof, t.limitedReader.N, t.limitedReader.consumed, t.ctxConn.readCtx, t.ctxConn.readCancel, t.decoder.ended, t.ctxConn.conn.closed
 //@   oncall [C04] (*encoding/json.Decoder).Decode[*rawEnvelope] : true
 //@   ensures [C16] @bounded t.limitedReader.consumed - old(t.limitedReader.consumed) <= old(t.limitedReader.N) && old(t.limitedReader.N) <= t.ReadLimit
 //@   ensures [C16] @rearmed result1 == nil ==> t.limitedReader.N == t.ReadLimit
@@ -2610,6 +2610,7 @@ func lemmaForwardSession(raw *rawEnvelope) (e *Session, e3 *Session, accepted bo
 //@   ensures [C09,C12] @stillopen result1 == nil ==> t.conn != nil && !t.eof  ## Transport model: a successful Receive leaves the transport connected
 //@   ensures [C12] @notopen old(t.conn == nil || t.eof) ==> result1 != nil
 //@   ensures [C12] @monotone t.conn != nil && !t.eof ==> old(t.conn != nil && !t.eof)  ## Transport model: a transport never becomes connected again
+//@   ensures [C12,C14] @disconnectedmeansreleased old(t.conn != nil && !t.eof) && !(t.conn != nil && !t.eof) ==> t.ctxConn.conn.closed  ## channel.Close skips Close on a transport that is not connected: such a transport must not hold an open socket
 //@   ensures [C07,C12,C14] @eofonlyatstreamend t.eof ==> old(t.eof) || t.decoder.ended  ## refinement of `connected`: a transport that still holds its socket reports "not connected" only when the peer closed the stream - otherwise channel.Close would skip the close and leave the peer on an open connection
 //@   ensures tcpInv(t)
 
@@ -2617,12 +2618,13 @@ func lemmaForwardSession(raw *rawEnvelope) (e *Session, e3 *Session, accepted bo
 //@   props C04 C09 C12
 //@   requires t != nil && (t.conn != nil && !t.eof ==> t.encoder != nil && t.ctxConn != nil)
 //@   panics only-if ctx == nil || e == nil || payloadnil(e)
-//@   modifies t.eof, t.ctxConn.writeCtx, t.ctxConn.writeCancel, t.encoder.ended
+//@   modifies t.eof, t.ctxConn.writeCtx, t.ctxConn.writeCancel, t.encoder.ended, t.ctxConn.conn.closed
 //@   oncall [C04] (*encoding/json.Encoder).Encode : a_v == e
 //@   ensures [C12] @notopen old(t.conn == nil || t.eof) ==> result != nil
 //@   ensures [C09,C12] @stillopen result == nil ==> t.conn != nil && !t.eof  ## Transport model: a successful Send leaves the transport connected
 //@   ensures [C12] @monotone t.conn != nil && !t.eof ==> old(t.conn != nil && !t.eof)
 //@   ensures [C07,C12,C14] @eofonlyatstreamend t.eof ==> old(t.eof) || t.encoder.ended
+//@   ensures [C12,C14] @disconnectedmeansreleased old(t.conn != nil && !t.eof) && !(t.conn != nil && !t.eof) ==> t.ctxConn.conn.closed
 
 //@ func (*tcpTransport).Encryption :: (t) (result)
 //@   props C09 C10
@@ -2693,14 +2695,16 @@ func lemmaForwardSession(raw *rawEnvelope) (e *Session, e3 *Session, accepted bo
 //@ func (*tcpTransport).Close :: (t) (result)
 //@   props C12
 //@   requires t != nil && (t.conn != nil && !t.eof ==> t.ctxConn != nil && t.ctxConn.conn != nil)
-//@   modifies t.conn
+//@   modifies t.conn, t.ctxConn.conn.closed
 //@   ensures t.conn == nil || result != nil
 //@   ensures !(t.conn != nil && !t.eof)
+//@   ensures [C12,C14] @socketclosed old(t.conn != nil && !t.eof) ==> t.ctxConn.conn.closed
 
 //@ func (*ctxConn).Close :: (c) (result)
-//@   props C12
+//@   props C12 C14
 //@   requires c != nil && c.conn != nil
-//@   modifies nothing
+//@   modifies c.conn.closed
+//@   ensures [C12,C14] @closessocket c.conn.closed
 
 // ---------------------------------------------------------------------------
 // In-process transport: the implementation behind the Transport model for C04
